@@ -71,12 +71,20 @@ Proof.
     rewrite Forall_app. rewrite <- Hx. rewrite <- IH. tauto.
 Qed.
 
-(* the sub-programs of a leaf *)
+(* the sub-programs of a leaf: the body of the asynq function and, when the function comes with an explicit
+   asyncio_fn, the body of that coroutine function *)
+Definition clift (P : prog -> Prop) (c : cfg prog) : Prop :=
+  match cafn c with AfNative q => P q | _ => True end.
 Definition lift (P : prog -> Prop) (a : leaf prog) : Prop :=
   match a with
   | LConst _ | LPxConst _ _ => True
-  | LCall _ p | LPxCall _ _ p => P p
+  | LCall c p | LPxCall _ c p => P p /\ clift P c
   end.
+
+Lemma lift_all (P : prog -> Prop) : (forall p, P p) -> forall a, lift P a.
+Proof.
+  intros H a. destruct a as [v|c p|i v|i c p]; cbn; auto; split; auto; unfold clift; destruct (cafn c); auto.
+Qed.
 
 Section ProgInd.
   Variable P : prog -> Prop.
@@ -94,8 +102,14 @@ Section ProgInd.
                          (fun a => match a return lift P a with
                                    | LConst _ => I
                                    | LPxConst _ _ => I
-                                   | LCall _ q => prog_ind2 q
-                                   | LPxCall _ _ q => prog_ind2 q
+                                   | LCall c q =>
+                                     conj (prog_ind2 q)
+                                          (match cafn c as x return (match x return Prop with AfNative q' => P q' | _ => True end) with
+                                           | AfNative q' => prog_ind2 q' | _ => I end)
+                                   | LPxCall _ c q =>
+                                     conj (prog_ind2 q)
+                                          (match cafn c as x return (match x return Prop with AfNative q' => P q' | _ => True end) with
+                                           | AfNative q' => prog_ind2 q' | _ => I end)
                                    end) s)
              (fun o => prog_ind2 (k o))
     | Sync al a k =>
@@ -103,8 +117,14 @@ Section ProgInd.
             (match a return lift P a with
              | LConst _ => I
              | LPxConst _ _ => I
-             | LCall _ q => prog_ind2 q
-             | LPxCall _ _ q => prog_ind2 q
+             | LCall c q =>
+               conj (prog_ind2 q)
+                    (match cafn c as x return (match x return Prop with AfNative q' => P q' | _ => True end) with
+                     | AfNative q' => prog_ind2 q' | _ => I end)
+             | LPxCall _ c q =>
+               conj (prog_ind2 q)
+                    (match cafn c as x return (match x return Prop with AfNative q' => P q' | _ => True end) with
+                     | AfNative q' => prog_ind2 q' | _ => I end)
              end)
             (fun o => prog_ind2 (k o))
     end.
@@ -254,8 +274,8 @@ Section ResolveFacts.
   Qed.
 
   Lemma resolve_flag (s : ystruct A) fl :
-    (forall a, f3 (aw a fl) = fl) -> f3 (resolve aw s fl) = fl.
-  Proof. intros Ha. destruct s; cbn; auto. Qed.
+    yall (fun a => f3 (aw a fl) = fl) s -> f3 (resolve aw s fl) = fl.
+  Proof. intros Ha. destruct s; cbn in *; auto. Qed.
 End ResolveFacts.
 
 (* ------------------------------------------------------------------ projection forms *)
@@ -276,7 +296,7 @@ Proof.
   cbn [eval]. destruct (eval (k (unwrap (ymap fst (ymap (eval_leaf eval) s))))) as [o t]. reflexivity.
 Qed.
 
-Definition converted (c : cfg) : Prop := match cafn c with AfNative _ => False | _ => True end.
+Definition converted (c : cfg prog) : Prop := match cafn c with AfNative _ => False | _ => True end.
 
 Lemma call_asyncio_conv drv c p fl :
   converted c ->
@@ -287,38 +307,50 @@ Proof.
     cbn; destruct (drv p true) as [[o f] t]; reflexivity.
 Qed.
 
-Lemma call_asyncio_native drv c p fl o :
-  cafn c = AfNative o ->
-  call_asyncio drv c p fl = (o, fl, [EvBody (cid c) fl; EvDone (cid c) o]).
-Proof. unfold call_asyncio. intros ->. reflexivity. Qed.
+Lemma call_asyncio_native drv c p fl q :
+  cafn c = AfNative q ->
+  call_asyncio drv c p fl =
+  (o3 (drv q fl), f3 (drv q fl), EvBody (cid c) fl :: t3 (drv q fl) ++ [EvDone (cid c) (o3 (drv q fl))]).
+Proof. unfold call_asyncio. intros ->. destruct (drv q fl) as [[o f] t]. reflexivity. Qed.
 
 (* ------------------------------------------------------------------ T4: the flag *)
-Lemma call_flag drv c p fl : f3 (call_asyncio drv c p fl) = fl.
+Lemma call_flag drv c p fl :
+  clift (fun q => forall fl, f3 (drv q fl) = fl) c -> f3 (call_asyncio drv c p fl) = fl.
 Proof.
-  destruct (cafn c) eqn:E.
+  unfold clift. destruct (cafn c) eqn:E; intros Hq.
   - rewrite call_asyncio_conv; [reflexivity | unfold converted; rewrite E; exact I].
   - rewrite call_asyncio_conv; [reflexivity | unfold converted; rewrite E; exact I].
-  - erewrite call_asyncio_native; eauto.
+  - erewrite call_asyncio_native by eauto. cbn [f3 fst snd]. apply Hq.
 Qed.
 
-Lemma await_flag drv a fl : f3 (await_leaf drv a fl) = fl.
+Lemma await_flag drv a fl :
+  lift (fun q => forall fl, f3 (drv q fl) = fl) a -> f3 (await_leaf drv a fl) = fl.
 Proof.
-  destruct a; cbn; unfold mode_exit; auto.
-  - apply call_flag.
-  - pose proof (call_flag drv c' p fl) as H. destruct (call_asyncio drv c' p fl) as [[o f] t]. exact H.
+  destruct a; cbn [lift await_leaf]; unfold mode_exit; auto.
+  - intros [_ Hc]. apply call_flag; exact Hc.
+  - intros [_ Hc]. unfold mode_enter. pose proof (call_flag drv c' p fl Hc) as H.
+    destruct (call_asyncio drv c' p fl) as [[o f] t]. exact H.
 Qed.
 
 Lemma drive_flag : forall p fl, f3 (drive p fl) = fl.
 Proof.
   induction p using prog_ind2; intros fl; try reflexivity.
   - rewrite drive_Yield. cbn [f3 fst snd]. rewrite H0.
-    apply resolve_flag. intros a. apply await_flag.
+    apply resolve_flag. eapply yall_impl; [|exact H]. intros a Ha. apply await_flag; exact Ha.
   - cbn [drive]. destruct fl.
     + destruct al.
       * specialize (H0 (Ok VNone) true). destruct (drive (k (Ok VNone)) true) as [[o f] t]. exact H0.
       * specialize (H0 (Err E_RUNTIME) true). destruct (drive (k (Err E_RUNTIME)) true) as [[o f] t]. exact H0.
     + destruct (eval_leaf eval a) as [o tr]. specialize (H0 o false).
       destruct (drive (k o) false) as [[o2 f2] t2]. exact H0.
+Qed.
+
+Lemma await_flag_drive a fl : f3 (await_leaf drive a fl) = fl.
+Proof. apply await_flag. apply lift_all. exact drive_flag. Qed.
+
+Lemma resolve_flag_drive s fl : f3 (resolve (await_leaf drive) s fl) = fl.
+Proof.
+  apply resolve_flag. apply yall_leaves. apply Forall_forall. intros a _. apply await_flag_drive.
 Qed.
 
 (* what may be seen while a converted coroutine runs: every body sees the flag on, and no plain
@@ -334,14 +366,17 @@ Lemma Forall_concat X (P : X -> Prop) ll : Forall (fun l => Forall P l) ll -> Fo
 Proof. induction 1; cbn; auto. apply Forall_app; auto. Qed.
 
 Lemma call_ev_ok c p :
-  Forall ev_ok (t3 (drive p true)) -> Forall ev_ok (t3 (call_asyncio drive c p true)).
+  Forall ev_ok (t3 (drive p true)) -> clift (fun q => Forall ev_ok (t3 (drive q true))) c ->
+  Forall ev_ok (t3 (call_asyncio drive c p true)).
 Proof.
-  intros H. destruct (cafn c) eqn:E.
+  intros H. unfold clift. destruct (cafn c) eqn:E; intros Hq.
   - rewrite call_asyncio_conv by (unfold converted; rewrite E; exact I). cbn [t3 snd].
-    constructor; [reflexivity|]. apply Forall_app; split; auto. repeat constructor.
+    constructor; [reflexivity|]. apply Forall_app; split; [assumption | repeat constructor].
   - rewrite call_asyncio_conv by (unfold converted; rewrite E; exact I). cbn [t3 snd].
-    constructor; [reflexivity|]. apply Forall_app; split; auto. repeat constructor.
-  - erewrite call_asyncio_native by eauto. repeat constructor.
+    constructor; [reflexivity|]. apply Forall_app; split; [assumption | repeat constructor].
+  - (* an explicit asyncio_fn awaited where the flag is on: its body sees it on, all of its own calls are refused *)
+    erewrite call_asyncio_native by eauto. cbn [t3 snd].
+    constructor; [reflexivity|]. apply Forall_app; split; [assumption | repeat constructor].
 Qed.
 
 Lemma await_ev_ok a :
@@ -349,10 +384,10 @@ Lemma await_ev_ok a :
 Proof.
   destruct a; cbn [lift await_leaf]; intros H.
   - constructor.
-  - apply call_ev_ok; exact H.
+  - destruct H as [H Hc]. apply call_ev_ok; assumption.
   - cbn. repeat constructor.
-  - unfold mode_enter, mode_exit.
-    pose proof (call_ev_ok c' p H) as Hc.
+  - destruct H as [H Hq]. unfold mode_enter, mode_exit.
+    pose proof (call_ev_ok c' p H Hq) as Hc.
     destruct (call_asyncio drive c' p true) as [[o f] t]. cbn [t3 snd] in *. constructor; auto. reflexivity.
 Qed.
 
@@ -365,7 +400,7 @@ Proof.
     + destruct (resolve_unwrap _ (await_leaf drive) s true) as [_ ->].
       apply Forall_concat. rewrite Forall_map.
       apply yall_leaves in H. eapply Forall_impl; [|exact H]. intros a Ha. apply await_ev_ok; exact Ha.
-    + rewrite resolve_flag by (intros; apply await_flag). apply H0.
+    + rewrite resolve_flag_drive. apply H0.
   - cbn [drive]. destruct al.
     + specialize (H0 (Ok VNone)). destruct (drive (k (Ok VNone)) true) as [[o f] t]. constructor; [exact I|exact H0].
     + specialize (H0 (Err E_RUNTIME)). destruct (drive (k (Err E_RUNTIME)) true) as [[o f] t]. constructor; [exact I|exact H0].
@@ -412,16 +447,19 @@ Definition dones (tr : list event) : list event := filter is_done tr.
 
 (* an explicit asyncio_fn has to agree with the asynq function it stands for: same outcome, and
    (it being the user's own coroutine) no @asynq() calls of its own *)
-Definition agree (c : cfg) (p : prog) : Prop :=
+Definition agree (rec : prog -> Prop) (c : cfg prog) (p : prog) : Prop :=
   match cafn c with
-  | AfNative o => fst (eval p) = o /\ dones (snd (eval p)) = []
+  | AfNative q =>
+    (* the coroutine body, read as an asynq program, is in the class itself and computes what the asynq function
+       computes: same outcome, the same calls complete with the same outcomes *)
+    rec q /\ fst (eval q) = fst (eval p) /\ dones (snd (eval q)) = dones (snd (eval p))
   | _ => True
   end.
 
 Definition lwf (rec : prog -> Prop) (a : leaf prog) : Prop :=
   match a with
   | LConst _ | LPxConst _ _ => True
-  | LCall c p | LPxCall _ c p => rec p /\ agree c p
+  | LCall c p | LPxCall _ c p => rec p /\ agree rec c p
   end.
 
 (* the statement's program class: no plain synchronous calls; explicit asyncio_fns agree *)
@@ -444,11 +482,12 @@ Lemma dones_concat_ext X (g1 g2 : X -> list event) l :
 Proof. induction 1 as [|x r Hx Hr IH]; cbn; auto. rewrite !dones_app, Hx, IH. reflexivity. Qed.
 
 Lemma call_same c p fl :
-  (forall fl, same (drive p fl) (eval p)) -> agree c p ->
+  (forall fl, same (drive p fl) (eval p)) ->
+  clift (fun q => wf q -> forall fl, same (drive q fl) (eval q)) c -> agree wf c p ->
   same (call_asyncio drive c p fl)
        (fst (eval p), EvBody (cid c) false :: snd (eval p) ++ [EvDone (cid c) (fst (eval p))]).
 Proof.
-  intros IH Ha. unfold agree in Ha. destruct (cafn c) eqn:E.
+  intros IH IHq Ha. unfold agree in Ha. unfold clift in IHq. destruct (cafn c) eqn:E.
   - rewrite call_asyncio_conv by (unfold converted; rewrite E; exact I).
     destruct (IH true) as [Ho Ht]. unfold same; cbn [o3 t3 fst snd]. split; auto.
     cbn [dones filter is_done]. fold (dones (t3 (drive p true) ++ [EvDone (cid c) (o3 (drive p true))])).
@@ -459,10 +498,12 @@ Proof.
     cbn [dones filter is_done]. fold (dones (t3 (drive p true) ++ [EvDone (cid c) (o3 (drive p true))])).
     fold (dones (snd (eval p) ++ [EvDone (cid c) (fst (eval p))])).
     rewrite !dones_app, Ht, Ho. reflexivity.
-  - erewrite call_asyncio_native by eauto. destruct Ha as [Ho Hd].
-    unfold same; cbn [o3 t3 fst snd]. split; auto.
-    cbn [dones filter is_done]. fold (dones (snd (eval p) ++ [EvDone (cid c) (fst (eval p))])).
-    rewrite dones_app, Hd, Ho. reflexivity.
+  - erewrite call_asyncio_native by eauto. destruct Ha as [Hw [Ho Hd]].
+    destruct (IHq Hw fl) as [Qo Qt].
+    unfold same; cbn [o3 t3 fst snd]. split; [rewrite Qo; exact Ho|].
+    cbn [dones filter is_done]. fold (dones (t3 (drive q fl) ++ [EvDone (cid c) (o3 (drive q fl))])).
+    fold (dones (snd (eval p) ++ [EvDone (cid c) (fst (eval p))])).
+    rewrite !dones_app, Qt, Qo, Hd, Ho. reflexivity.
 Qed.
 
 Lemma leaf_same a fl :
@@ -471,11 +512,11 @@ Lemma leaf_same a fl :
 Proof.
   destruct a; cbn [lift lwf await_leaf eval_leaf]; intros IH Hw.
   - split; reflexivity.
-  - destruct Hw as [Hw Ha]. pose proof (call_same c p fl (IH Hw) Ha) as H.
+  - destruct Hw as [Hw Ha]. destruct IH as [IH IHq]. pose proof (call_same c p fl (IH Hw) IHq Ha) as H.
     destruct (eval p) as [o tr]. exact H.
   - split; reflexivity.
-  - destruct Hw as [Hw Ha]. unfold mode_enter, mode_exit.
-    pose proof (call_same c' p fl (IH Hw) Ha) as H.
+  - destruct Hw as [Hw Ha]. destruct IH as [IH IHq]. unfold mode_enter, mode_exit.
+    pose proof (call_same c' p fl (IH Hw) IHq Ha) as H.
     destruct (eval p) as [o tr]. destruct (call_asyncio drive c' p fl) as [[o2 f2] t2].
     unfold same in *; cbn [o3 t3 fst snd] in *. destruct H as [H1 H2]. split; auto.
 Qed.
@@ -507,7 +548,7 @@ Qed.
 Lemma root_same a fl : lwf wf a -> same (run_asyncio a fl) (run_seq a).
 Proof.
   intros Hw. apply leaf_same; auto.
-  destruct a; cbn [lift]; auto; intros; apply eq_seq; auto.
+  apply lift_all. intros p Hp fl'. apply eq_seq; exact Hp.
 Qed.
 
 (* ------------------------------------------------------------------ T2: shape *)
@@ -535,7 +576,8 @@ Proof.
     right. apply in_or_app. right. left. reflexivity.
   - rewrite call_asyncio_conv by (unfold converted; rewrite E; exact I). cbn [o3 t3 fst snd].
     right. apply in_or_app. right. left. reflexivity.
-  - erewrite call_asyncio_native by eauto. cbn. auto.
+  - erewrite call_asyncio_native by eauto. cbn [o3 t3 fst snd].
+    right. apply in_or_app. right. left. reflexivity.
 Qed.
 
 (* ------------------------------------------------------------------ unwrap = first failure in structure order *)
@@ -580,9 +622,9 @@ Proof.
 Qed.
 
 (* ------------------------------------------------------------------ the hypotheses are satisfiable *)
-Definition ex_child (i : Z) (a : afn) (p : prog) : ystruct (leaf prog) := YLeaf (LCall (mkcfg i KGen a) p).
+Definition ex_child (i : Z) (a : afn prog) (p : prog) : ystruct (leaf prog) := YLeaf (LCall (mkcfg i KGen a) p).
 Definition ex_prog : prog :=
-  Yield (YTuple [ex_child 2 AfNone (Raise 7); YDict [(1, ex_child 3 (AfNative (Ok (VInt 5))) (Ret (VInt 5))); (0, YNone)];
+  Yield (YTuple [ex_child 2 AfNone (Raise 7); YDict [(1, ex_child 3 (AfNative (Ret (VInt 5))) (Ret (VInt 5))); (0, YNone)];
                  YLeaf (LPxCall 4 (mkcfg 5 KMethod AfTwin) (Raise 8))])
         (fun o => match o with
                   | Ok v => Ret v
@@ -689,7 +731,7 @@ Qed.
 (* the class with exception values is inhabited: a validator that returns its error, next to one
    that raises and is caught by the parent, which keeps the caught instance as data too *)
 Definition ex_xprog : prog :=
-  Yield (YList [ex_child 2 AfNone (Ret (VExc 7)); YTuple [YLeaf (LConst (VExc 8)); ex_child 3 (AfNative (Ok (VExc 9))) (Ret (VExc 9))]])
+  Yield (YList [ex_child 2 AfNone (Ret (VExc 7)); YTuple [YLeaf (LConst (VExc 8)); ex_child 3 (AfNative (Ret (VExc 9))) (Ret (VExc 9))]])
         (fun o => match o with
                   | Ok v => Yield (ex_child 4 AfNone (Raise 5))
                                   (fun o2 => match o2 with Ok _ => Ret v | Err e => Ret (VTuple [v; VExc e]) end)
@@ -753,7 +795,7 @@ Lemma mode_confined :
   (forall a fl, f3 (run_asyncio a fl) = fl) /\
   (forall p fl, f3 (drive p fl) = fl) /\
   (forall a fl, converted_leaf a -> Forall ev_ok (t3 (run_asyncio a fl))).
-Proof. split; [exact (await_flag drive)|]. split; [exact drive_flag | exact run_ev_ok]. Qed.
+Proof. split; [exact await_flag_drive|]. split; [exact drive_flag | exact run_ev_ok]. Qed.
 
 Lemma sync_call_refused :
   (forall a k, let r := drive (k (Err E_RUNTIME)) true in
@@ -844,12 +886,12 @@ End ResolveRef.
 Definition prog_ref (p : prog) : Prop :=
   forall fl h, fst (driveH fresh_inst p fl h) = drive p fl /\ hext h (snd (driveH fresh_inst p fl h)).
 
-Lemma callH_ref c p : prog_ref p ->
+Lemma callH_ref c p : prog_ref p -> clift prog_ref c ->
   forall fl h, fst (call_asyncioH fresh_inst (driveH fresh_inst) c p fl h) = call_asyncio drive c p fl /\
                hext h (snd (call_asyncioH fresh_inst (driveH fresh_inst) c p fl h)).
 Proof.
-  intros IH fl h. unfold call_asyncioH, call_asyncio.
-  destruct (cafn c); try (split; [reflexivity | apply hext_refl]).
+  intros IH IHq fl h. unfold call_asyncioH, call_asyncio. unfold clift in IHq.
+  destruct (cafn c).
   - change (fresh_inst (cid c) h) with (hnext h). unfold mode_enter, mode_exit. cbn [enterH].
     destruct (IH true (mkheap (S (hnext h)) ((hnext h, fl) :: hslots h))) as [E1 E2].
     destruct (driveH fresh_inst p true _) as [r h2]. cbn [fst snd] in *. subst r.
@@ -862,19 +904,24 @@ Proof.
     rewrite (exit_after_enter fl _ h h2 E2).
     destruct (drive p true) as [[o f] t]. cbn. split; [reflexivity|].
     eapply hext_trans; [|exact E2]. apply (hext_enter (hnext h) fl h). auto.
+  - (* explicit asyncio_fn: no AsyncioMode object of its own *)
+    destruct (IHq fl h) as [E1 E2].
+    destruct (driveH fresh_inst q fl h) as [r h2]. cbn [fst snd] in *. subst r.
+    destruct (drive q fl) as [[o f] t]. cbn. split; [reflexivity | exact E2].
 Qed.
 
 Lemma awaitH_ref a : lift prog_ref a -> leaf_ref _ (await_leafH fresh_inst (driveH fresh_inst)) (await_leaf drive) a.
 Proof.
   destruct a; cbn [lift]; intros IH fl h; cbn [await_leafH await_leaf].
   - split; [reflexivity | apply hext_refl].
-  - apply callH_ref; exact IH.
+  - destruct IH as [IH IHq]. apply callH_ref; assumption.
   - change (fresh_inst c h) with (hnext h). unfold mode_enter, mode_exit. cbn [enterH].
     pose proof (exit_after_enter fl true h _ (hext_refl _)) as Hx. cbn [enterH snd] in Hx. rewrite Hx. cbn.
     split; [reflexivity | apply (hext_enter (hnext h) fl h); auto].
-  - change (fresh_inst c h) with (hnext h). unfold mode_enter, mode_exit. cbn [enterH].
+  - destruct IH as [IH IHq].
+    change (fresh_inst c h) with (hnext h). unfold mode_enter, mode_exit. cbn [enterH].
     pose proof (exit_after_enter fl true h _ (hext_refl _)) as Hx. cbn [enterH snd] in Hx. rewrite Hx.
-    destruct (callH_ref c' p IH fl (mkheap (S (hnext h)) ((hnext h, fl) :: hslots h))) as [E1 E2].
+    destruct (callH_ref c' p IH IHq fl (mkheap (S (hnext h)) ((hnext h, fl) :: hslots h))) as [E1 E2].
     destruct (call_asyncioH fresh_inst (driveH fresh_inst) c' p fl _) as [r h2]. cbn [fst snd] in *. subst r.
     destruct (call_asyncio drive c' p fl) as [[o f] t]. cbn. split; [reflexivity|].
     eapply hext_trans; [|exact E2]. apply (hext_enter (hnext h) fl h). auto.
@@ -912,7 +959,7 @@ Lemma runH_ref a fl h :
   fst (run_asyncioH fresh_inst a fl h) = run_asyncio a fl /\ hext h (snd (run_asyncioH fresh_inst a fl h)).
 Proof.
   unfold run_asyncioH, run_asyncio. apply awaitH_ref.
-  destruct a; cbn [lift]; auto; apply driveH_ref.
+  apply lift_all. exact driveH_ref.
 Qed.
 
 (* a function that is re-entered while it runs: f(n) = if n = 0: return 1 (or raise) else: r = yield f.asynq(n - 1); return [r]
@@ -953,7 +1000,7 @@ Proof.
   split; [intros; apply runH_ref|]. split; [intros; apply driveH_ref|].
   split; [intros; apply runH_ref|]. split; [intros; apply driveH_ref|].
   assert (F : forall a fl h, f3 (fst (run_asyncioH fresh_inst a fl h)) = fl).
-  { intros a fl h. rewrite (proj1 (runH_ref a fl h)). apply await_flag. }
+  { intros a fl h. rewrite (proj1 (runH_ref a fl h)). apply await_flag_drive. }
   split; [exact F | intros; apply F].
 Qed.
 
@@ -1002,4 +1049,104 @@ Proof.
     destruct (drive (k o) false) as [[o2 f2] t2]. reflexivity.
   - intros a h ps. cbn zeta. rewrite F. apply probes_off.
   - intros a h ps Hp. rewrite F. apply probes_on; exact Hp.
+Qed.
+
+(* ------------------------------------------------------------------ T10: explicit asyncio_fns below a running coroutine *)
+(* An explicit asyncio_fn does not enter AsyncioMode itself: what its body sees is the flag of whoever awaits it.
+   Awaited where the flag is on, its plain synchronous call of an @asynq() function is refused ... *)
+Lemma native_sync_refused c p g k :
+  cafn c = AfNative (Sync false g k) ->
+  call_asyncio drive c p true =
+  (let r := drive (k (Err E_RUNTIME)) true in
+   (o3 r, f3 r, EvBody (cid c) true :: EvSync SRefused :: t3 r ++ [EvDone (cid c) (o3 r)])).
+Proof.
+  intros E. erewrite call_asyncio_native by eauto. rewrite sync_refused. reflexivity.
+Qed.
+
+(* ... while awaited from a context outside asyncio mode the same call runs its callee on the scheduler
+   (so the two situations are told apart by what is observed) *)
+Lemma native_sync_runs_outside c p g k :
+  cafn c = AfNative (Sync false g k) ->
+  In (EvBody (cid c) false) (t3 (call_asyncio drive c p false)) /\
+  In (EvSync SRan) (t3 (call_asyncio drive c p false)).
+Proof.
+  intros E. erewrite call_asyncio_native by eauto. cbn [drive].
+  destruct (eval_leaf eval g) as [o tr]. destruct (drive (k o) false) as [[o2 f2] t2].
+  cbn. auto.
+Qed.
+
+(* the subtree of a converted coroutine: a child with an explicit asyncio_fn, yielded alone or anywhere inside a
+   tuple / list / dict, by a function or a method, from a context whose flag was on or off *)
+Lemma native_in_subtree c0 s k0 fl c p g k :
+  converted c0 -> In (LCall c p) (yleaves s) -> cafn c = AfNative (Sync false g k) ->
+  let R := call_asyncio drive c0 (Yield s k0) fl in
+  In (EvBody (cid c) true) (t3 R) /\ In (EvSync SRefused) (t3 R) /\ ~ In (EvSync SRan) (t3 R) /\ f3 R = fl.
+Proof.
+  intros Hc Hin E R.
+  assert (HR : forall ev, In ev (t3 (call_asyncio drive c p true)) -> In ev (t3 R)).
+  { intros ev Hev. unfold R. rewrite call_asyncio_conv by exact Hc. cbn [t3 snd].
+    right. apply in_or_app. left. rewrite drive_Yield. cbn [t3 snd]. apply in_or_app. left.
+    apply (all_done _ (await_leaf drive) s true (LCall c p)); auto. }
+  split; [|split; [|split]].
+  - apply HR. rewrite (native_sync_refused c p g k E). cbn. auto.
+  - apply HR. rewrite (native_sync_refused c p g k E). cbn. auto.
+  - exact (never_ran (LCall c0 (Yield s k0)) fl Hc).
+  - unfold R. rewrite call_asyncio_conv by exact Hc. reflexivity.
+Qed.
+
+(* the class is inhabited: `child` has an explicit asyncio_fn that calls `leaf` synchronously and hands back what
+   happened; a parent yields it inside a dict of a list and alone *)
+Definition ex_sync_body (i : Z) : prog :=
+  Sync false (LCall (mkcfg (i + 1)%Z KGen AfNone) (Ret (VInt 1)))
+       (fun o => match o with Ok v => Ret (VTuple [VInt 0; v]) | Err e => Ret (VTuple [VInt 1; VInt e]) end).
+Definition ex_sync_child (i : Z) : leaf prog := LCall (mkcfg i KGen (AfNative (ex_sync_body i))) (ex_sync_body i).
+Definition ex_native_root : leaf prog :=
+  LCall (mkcfg 1 KMethod AfNone)
+        (Yield (YDict [(0%Z, YList [YLeaf (ex_sync_child 2); YNone]); (1%Z, YLeaf (ex_sync_child 4))])
+               (fun o => match o with Ok v => Ret v | Err e => Raise e end)).
+Example ex_native_runs :
+  o3 (run_asyncio ex_native_root false)
+  = Ok (VDict [(0%Z, VList [VTuple [VInt 1; VInt E_RUNTIME]; VNone]); (1%Z, VTuple [VInt 1; VInt E_RUNTIME])]) /\
+  fst (run_seq ex_native_root)
+  = Ok (VDict [(0%Z, VList [VTuple [VInt 0; VInt 1]; VNone]); (1%Z, VTuple [VInt 0; VInt 1])]) /\
+  o3 (run_asyncio (ex_sync_child 2) false) = Ok (VTuple [VInt 0; VInt 1]) /\
+  o3 (run_asyncio (ex_sync_child 2) true) = Ok (VTuple [VInt 1; VInt E_RUNTIME]).
+Proof. repeat split; reflexivity. Qed.
+
+(* ... and an explicit asyncio_fn whose body awaits `g.asyncio(args)` where the asynq function yields g.asynq(args)
+   is inside T1's class: both engines agree *)
+Definition ex_await_body : prog :=
+  Yield (YLeaf (LCall (mkcfg 7 KGen AfNone) (Ret (VInt 3))))
+        (fun o => match o with Ok v => Ret (VList [v]) | Err e => Raise e end).
+Definition ex_await_prog : prog :=
+  Yield (YTuple [YLeaf (LCall (mkcfg 6 KGen (AfNative ex_await_body)) ex_await_body); YLeaf (LConst VNone)])
+        (fun o => match o with Ok v => Ret v | Err e => Raise e end).
+Example ex_await_wf : wf ex_await_prog /\ o3 (drive ex_await_prog false) = Ok (VTuple [VList [VInt 3]; VNone]).
+Proof.
+  split; [|reflexivity]. cbn. repeat split; auto; intros [v|e]; exact I.
+Qed.
+
+Lemma explicit_asyncio_fn_in_subtree :
+  (forall c p g k, cafn c = AfNative (Sync false g k) ->
+      call_asyncio drive c p true =
+      (let r := drive (k (Err E_RUNTIME)) true in
+       (o3 r, f3 r, EvBody (cid c) true :: EvSync SRefused :: t3 r ++ [EvDone (cid c) (o3 r)]))) /\
+  (forall c0 s k0 fl c p g k,
+      converted c0 -> In (LCall c p) (yleaves s) -> cafn c = AfNative (Sync false g k) ->
+      let R := call_asyncio drive c0 (Yield s k0) fl in
+      In (EvBody (cid c) true) (t3 R) /\ In (EvSync SRefused) (t3 R) /\ ~ In (EvSync SRan) (t3 R) /\ f3 R = fl) /\
+  (forall a fl, converted_leaf a -> Forall ev_ok (t3 (run_asyncio a fl))) /\
+  (forall c p g k, cafn c = AfNative (Sync false g k) ->
+      In (EvBody (cid c) false) (t3 (call_asyncio drive c p false)) /\
+      In (EvSync SRan) (t3 (call_asyncio drive c p false))) /\
+  (o3 (run_asyncio ex_native_root false)
+   = Ok (VDict [(0%Z, VList [VTuple [VInt 1; VInt E_RUNTIME]; VNone]); (1%Z, VTuple [VInt 1; VInt E_RUNTIME])]) /\
+   fst (run_seq ex_native_root)
+   = Ok (VDict [(0%Z, VList [VTuple [VInt 0; VInt 1]; VNone]); (1%Z, VTuple [VInt 0; VInt 1])]) /\
+   o3 (run_asyncio (ex_sync_child 2) false) = Ok (VTuple [VInt 0; VInt 1]) /\
+   o3 (run_asyncio (ex_sync_child 2) true) = Ok (VTuple [VInt 1; VInt E_RUNTIME])) /\
+  (wf ex_await_prog /\ o3 (drive ex_await_prog false) = Ok (VTuple [VList [VInt 3]; VNone])).
+Proof.
+  split; [exact native_sync_refused|]. split; [exact native_in_subtree|]. split; [exact run_ev_ok|].
+  split; [exact native_sync_runs_outside|]. split; [exact ex_native_runs | exact ex_await_wf].
 Qed.
